@@ -165,7 +165,8 @@ func bindVectors(r *ev.Run) {
 	if err != nil {
 		r.Broken("cannot load packet vectors: %v", err)
 	}
-	for i, v := range tab {
+	ev.Par(len(tab), len(tab), func(i int) {
+		v := tab[i]
 		s := func(k string) string { x, _ := v[k].(string); return x }
 		b := func(k string) bool { x, _ := v[k].(bool); return x }
 		n := func(k string) int { x, _ := v[k].(int); return x }
@@ -228,6 +229,6 @@ func bindVectors(r *ev.Run) {
 		if derr != nil || used != len(ct) || ign != b("inIgnore") || !bytes.Equal(got, contents) {
 			r.Broken("reference receiver cannot open reference packet of vector %d: %v", i, derr)
 		}
-	}
+	})
 	r.Add("vectors_packet_encoding", int64(len(tab)))
 }
